@@ -59,7 +59,7 @@ def confirm(part, kwargs, native):
     return {"confirmed": True, "key": classify(what), "stage2": rp, "what": f"{part.sel.get('drv')} driver: {what}",
             "script": f'''# replay of a container action sequence on real h5py files
 import sys
-sys.path.insert(0, "/verif")
+sys.path.insert(0, "/verif"); sys.path.insert(1, "/verif/vt/testplugins")
 import vt.part as P
 P.NATIVE = True
 P.SEL.update({json.dumps(dict(part.sel, realfs=1))})
